@@ -211,6 +211,7 @@ impl Engine for C15 {
         let mut defined: Vec<bool> = vec![false; nmods];
         let mut versions: Vec<u64> = vec![0; nmods];
         let mut steps = Vec::new();
+        let mut late: Vec<Value> = Vec::new();
         // initial definitions: a DAG (module i imports only j > i)
         for i in (0..nmods).rev() {
             let mut deps = Vec::new();
@@ -221,7 +222,14 @@ impl Engine for C15 {
             }
             versions[i] += 1;
             defined[i] = true;
-            steps.push(json!({ "op": "set", "m": i, "ver": versions[i], "base": rng.range(0, 50), "kind": "int", "state": "ok", "deps": deps, "how": "add" }));
+            let step = json!({ "op": "set", "m": i, "ver": versions[i], "base": rng.range(0, 50), "kind": "int", "state": "ok", "deps": deps, "how": "add" });
+            // some modules are only defined later in the history (importers evaluated before that
+            // see a missing module, afterwards they must see it)
+            if rng.chance(1, 6) {
+                late.push(step);
+            } else {
+                steps.push(step);
+            }
         }
         let n = 3 + rng.below(10);
         for _ in 0..n {
@@ -237,6 +245,12 @@ impl Engine for C15 {
                 steps.push(json!({ "op": how, "mods": mods, "inject": inject }));
             } else if roll < 50 {
                 steps.push(json!({ "op": "collect" }));
+            } else if roll < 58 {
+                // register the unchanged source of a module again: not a change
+                steps.push(json!({ "op": "touch", "m": rng.below(nmods), "how": if rng.chance(1, 2) { "add" } else { "load" } }));
+            } else if roll < 64 && !late.is_empty() {
+                let k = rng.below(late.len());
+                steps.push(late.remove(k));
             } else {
                 // edit one module
                 let i = rng.below(nmods);
@@ -363,6 +377,21 @@ impl Engine for C15 {
                     } else {
                         vm.get_database_mut().add_module(format!("m{}", m), &text);
                         log.push(format!("add m{} v{}", m, step["ver"]));
+                    }
+                }
+                "touch" => {
+                    let m = step["m"].as_u64().unwrap_or(0) as usize;
+                    if let Some(src) = sources.get(&m) {
+                        run::count("touch_unchanged", 1);
+                        run::set_context(format!("plain step {} touch m{}", i, m));
+                        let text = src.replace("@TAG@", "L|");
+                        if step["how"].as_str() == Some("load") {
+                            let mname = format!("m{}", m);
+                            let _ = exec::drive(vm.load_script_async(&mname, &text), 100_000, |_| {});
+                        } else {
+                            vm.get_database_mut().add_module(format!("m{}", m), &text);
+                        }
+                        log.push(format!("touch m{}", m));
                     }
                 }
                 "collect" => vm.collect(),
